@@ -1,8 +1,8 @@
-\* Transition coverage (quick): 1 controller, zones 00 and 01 in range, a thermostat and a TRV, class 08,
-\* eavesdropping on, both devices may be asked to be faked
+\* Transition coverage (thorough): 1 controller, zones 00 and 01 in range and 02 beyond max_zones, a thermostat and a
+\* TRV, class 08, eavesdropping on; both devices may be asked to be faked          (11 905 transitions)
 CONSTANTS
   Ctls <- MCCtls1
-  ZoneIds <- MCZones2
+  ZoneIds <- MCZones3
   ZNum <- MCZNum
   MaxZones = 2
   Devs <- MCDevsTC
